@@ -17,7 +17,7 @@ Inductive val :=
 | VVec (l : list val) (p : opos)      (* types.Vector *)
 | VMap (m : list (str * val))         (* types.HashMap: association list, keys pairwise distinct *)
 | VSet (ks : list str)                (* types.Set *)
-| VFn (params body : val) (env : nat) (macro : bool)   (* types.MalFunc; env = frame id in the heap *)
+| VFn (params body : val) (env : positive) (macro : bool)   (* types.MalFunc; env = frame id in the heap *)
 | VBuiltin (name : str)               (* types.Func registered in the environment *)
 | VAtom (id : nat)                    (* *concurrent.Atom, id = index in the atom store *)
 | VGoErr (msg : str)                  (* a Go error value that is not a LispError *)
